@@ -207,6 +207,7 @@ class TlcResult:
 
 
 _counter = [0]
+TLA_CP = "/opt/veriftools/tla/tla2tools.jar:/opt/veriftools/tla/CommunityModules-deps.jar"
 
 
 def run_tlc(module, cfg=None, env=None, workers=None, timeout=600, extra=(), simulate=None, depth=None,
@@ -223,7 +224,14 @@ def run_tlc(module, cfg=None, env=None, workers=None, timeout=600, extra=(), sim
 def _run_tlc(module, cfg, env, workers, timeout, extra, simulate, depth, seed_, coverage, cwd, dfs, cont, java_opts):
     _counter[0] += 1
     meta = mkdir(os.path.join(BUILD, "tlc", "%s-%d-%d" % (module, os.getpid(), _counter[0])))
-    cmd = ["tlc", "-metadir", meta, "-noGenerateSpecTE", "-workers", str(workers or NCPU)]
+    # java is started directly (same class path as the `tlc` wrapper) so that -Xss is on the *command line*: the launcher
+    # sizes the main thread -- which evaluates ASSUMEs and computes the initial states -- from its own arguments only;
+    # a -Xss in JAVA_TOOL_OPTIONS reaches the worker threads but not the main thread, whose deep (finite) recursions
+    # then overflow when the JIT is starved and frames stay interpreted (seen under load)
+    jopts = ["-Xss512m"] + list(java_opts)
+    if dfs:
+        jopts.append("-Dtlc2.tool.queue.IStateQueue=StateDeque")
+    cmd = ["java"] + jopts + ["-XX:+UseParallelGC", "-cp", TLA_CP, "tlc2.TLC", "-metadir", meta, "-noGenerateSpecTE", "-workers", str(workers or NCPU)]
     if cfg:
         cmd += ["-config", cfg]
     if simulate:
@@ -241,11 +249,7 @@ def _run_tlc(module, cfg, env, workers, timeout, extra, simulate, depth, seed_, 
     e = dict(os.environ)
     if env:
         e.update({k: str(v) for k, v in env.items()})
-    jopts = ["-Xss64m"] + list(java_opts)   # deep (but finite) recursion in RECURSIVE operators
-    if dfs:
-        jopts.append("-Dtlc2.tool.queue.IStateQueue=StateDeque")
-    if jopts:
-        e["JAVA_TOOL_OPTIONS"] = " ".join(jopts)
+    e["JAVA_TOOL_OPTIONS"] = "-Xss64m"      # threads TLC creates itself
     res = TlcResult()
     res.cmd = " ".join(cmd)
     t0 = time.time()
